@@ -20,7 +20,9 @@ Oracle: a strict reference builder/classifier written from proxy-protocol.txt (v
   never generated on purpose; byte-mutated headers that land there are counted and skipped.
 
 Every stream is run with every single split point of header + first 3 payload bytes, whole, and
-with random multi-cut segmentations.
+with random multi-cut segmentations.  Second generation: v2 length fields over the whole 16-bit range
+(0..65535, filled with one TLV; split at the interesting offsets only) and a second complete v1/v2 header
+sent as the first application bytes (it must reach the application verbatim, addresses stay the first's).
 
 Classification of failures of VALID streams: `haproxy-short-first-segment` only when the connection
 was closed by the very first segment, that segment is shorter than the wrapper's version-sniffing
@@ -46,7 +48,7 @@ ASSUMPTIONS = ["trusted base: the reference header builder/classifier in this mo
                "an exception escaping dataReceived is what a reactor turns into a closed connection; it is counted, not treated as acceptance",
                "after loseConnection() the simulated transport delivers nothing more (TCP transport stops reading)"]
 SHARDS = {"quick": 4, "thorough": 16}
-FLOORS = {"valid_checked": 2000, "invalid_checked": 500, "addr_comparisons": 2000, "v1_cases": 500, "v2_cases": 500,
+FLOORS = {"v2_length_field_family": 150, "v2_length_field_ge_32768": 30, "second_header_in_payload": 200, "valid_checked": 2000, "invalid_checked": 500, "addr_comparisons": 2000, "v1_cases": 500, "v2_cases": 500,
           "split_inside_header": 2000, "tlv_headers": 10, "unix_headers": 5, "local_or_unknown": 20}
 READY = True
 
@@ -384,7 +386,7 @@ def check_case(ctx, stream, cuts, verdict, label, whole_ok=None):
         ctx.distinct((stream, tuple(cuts)))
     ctx.count("v2_cases" if stream[:12] == SIG else "v1_cases")
     ctx.count("segments_delivered", len(segs))
-    wit = {"stream": stream, "cuts": list(cuts), "segments": segs, "label": label, "reference": repr(verdict)[:300],
+    wit = {"ext_case": CURRENT["case"], "stream": stream, "cuts": list(cuts), "segments": segs, "label": label, "reference": repr(verdict)[:300],
            "observed": {"app": res["app"], "closed": res["closed"], "closed_at_segment": res["closed_at"], "exception": res["exc"],
                         "end_addr": repr(res["end_addr"])}}
     if verdict[0] == "INVALID":
@@ -451,7 +453,14 @@ def run_stream(ctx, rng, stream, verdict, label):
     whole = check_case(ctx, stream, [], verdict, label)
     whole_ok = whole.get("ok", False)
     limit = min(len(stream) - 1, verdict[3] + 3 if verdict[0] == "VALID" else 130)
-    for c in range(1, limit + 1):
+    if limit > 600:  # very long v2 headers: the interesting offsets only
+        hlen = verdict[3]
+        alen = ADDRLEN.get(stream[13] & 0xF0, 0)
+        points = set(range(1, 21)) | set(range(16 + alen - 2, 16 + alen + 4)) | set(range(hlen - 3, hlen + 4)) | {rng.randrange(1, len(stream)) for _ in range(8)}
+        points = sorted(c for c in points if 0 < c < len(stream))
+    else:
+        points = range(1, limit + 1)
+    for c in points:
         check_case(ctx, stream, [c], verdict, label, whole_ok)
     for _ in range(4):
         k = rng.randint(2, 6)
@@ -498,13 +507,70 @@ def one_case(ctx, i):
                     "observed_app": res["app"], "closed": res["closed"], "end_addr": repr(res["end_addr"])})
 
 
+BIG_LENGTHS = [0, 1, 11, 12, 13, 255, 256, 257, 4095, 4096, 32767, 32768, 65534, 65535]
+
+
+def ext_case(ctx, i):
+    """Second generation: v2 length fields over the whole 16-bit range (TLV padding), and a second complete
+    header sent as the first application bytes of the same connection (it is application data)."""
+    rng = ctx.case_rng("ext", i)
+    if rng.random() < 0.45:
+        ln = rng.choice(BIG_LENGTHS)
+        kind = rng.choice(["LOCAL", "UNSPEC", "INET", "INET6"])
+        if kind == "LOCAL":
+            vc, fp, addr = 0x20, 0, b""
+        elif kind == "UNSPEC":
+            vc, fp, addr = 0x21, 0, b""
+        elif kind == "INET":
+            vc, fp, addr = 0x21, rng.choice([0x11, 0x12]), rand_ip4(rng) + rand_ip4(rng) + struct.pack("!HH", rand_port(rng), rand_port(rng))
+        else:
+            vc, fp, addr = 0x21, rng.choice([0x21, 0x22]), rand_ip6(rng) + rand_ip6(rng) + struct.pack("!HH", rand_port(rng), rand_port(rng))
+        if ln < len(addr):
+            ln = len(addr) + rng.choice([0, 1, 3])
+        pad = ln - len(addr)
+        tlv = b""
+        if pad >= 3:  # one well-formed TLV filling the rest (type NOOP 0x04)
+            tlv = b"\x04" + struct.pack("!H", pad - 3) + bytes(rng.choice(b"\x00\xffab\r\n") for _ in range(pad - 3))
+        else:
+            ln -= pad
+        hdr = SIG + bytes([vc, fp]) + struct.pack("!H", ln) + addr + tlv
+        label = "v2-%s-len%d" % (kind, ln)
+        stream = hdr + gen_payload(rng, 1)
+        ctx.count("v2_length_field_family")
+        ctx.seen("v2_length_fields", str(ln))
+        if ln >= 32768:
+            ctx.count("v2_length_field_ge_32768")
+    else:
+        h1, l1 = gen_v1(rng) if rng.random() < 0.5 else gen_v2(rng)
+        h2, l2 = gen_v1(rng) if rng.random() < 0.5 else gen_v2(rng)
+        hdr = h1
+        stream = h1 + h2 + gen_payload(rng)
+        label = "%s then %s as payload" % (l1, l2)
+        ctx.count("second_header_in_payload")
+    verdict = ref_classify(stream)
+    if verdict[0] != "VALID" or verdict[3] != len(hdr):
+        raise AssertionError("reference rejects a generated valid header: %r %r" % (stream[:80], verdict))
+    CURRENT["case"] = "ext:%d" % i
+    try:
+        run_stream(ctx, rng, stream, verdict, label)
+    finally:
+        CURRENT["case"] = None
+
+
+CURRENT = {"case": None}
+
+
 def run(ctx):
     for i in ctx.cases(1500, 20000):
         one_case(ctx, i)
+    for i in ctx.cases(400, 6000):
+        ext_case(ctx, i)
 
 
 def replay(ctx, w):
     x = w["witness"]
+    if x.get("ext_case"):
+        return ext_case(ctx, int(x["ext_case"].split(":")[1]))
 
     def unb(s):
         import codecs
